@@ -44,7 +44,7 @@ PROPS = {
             "read but never stored, (4) spec/setup-function keyword mismatches (TypeError on every matching word). "
             "Does NOT decide totality over all byte strings (type errors, KeyError on computed keys, arithmetic on wrong kinds)."
         ),
-        rules=[(R_c17.r_import_c17, Q), (R_c17.r_name_c17, Q), (R_c17.r_modattr_c17, Q), (R_c17.r_priv_c17, Q), (R_c17.r_arity_c17, Q), (R_c17.r_dupkey_c17, Q), (R_c17.r_unbound_c17, T), (R_spec.r_sig, Q), (R_spec.r_dupfmt, Q), (R_c06.r_sizetab, Q), (R_spec.r_boundidx, Q)],
+        rules=[(R_c17.r_import_c17, Q), (R_c17.r_name_c17, Q), (R_c17.r_modattr_c17, Q), (R_c17.r_priv_c17, Q), (R_c17.r_arity_c17, Q), (R_c17.r_dupkey_c17, Q), (R_c17.r_unbound_c17, T), (R_spec.r_sig, Q), (R_spec.r_dupfmt, Q), (R_c06.r_sizetab, Q), (R_spec.r_boundidx, Q), (R_c17.r_objattr_c17, Q), (R_c17.r_miscnone_c17, Q)],
         level_text="partial: static scope/signature analysis over every function reachable from decode, format and execute entry points of all ISAs (~3000+ functions); each report is a definite NameError/AttributeError/TypeError for every input that reaches the line; the tests decode ~150 words and execute a handful of semantics",
         level_note="Trusted: CPython ast; by-name callee resolution (no type inference), so attribute typos on non-module objects and implicit exceptions (IndexError/KeyError/TypeError on values) are out of reach. Unresolvable namespaces and deliberate bare-name crash markers are listed as undecided, not alarmed.",
         technique="static scope resolution + call-graph reachability + spec/signature cross-check over the AST",
@@ -96,7 +96,7 @@ PROPS = {
             "(R-MAXLEN) cpu modules with '*'/'&' specs set disassemble.maxlen explicitly; (R-FMT) every spec has LEN>=8 "
             "(length >= 1). Does NOT decide equality of d(b), d(b[:n]), d(b[:n]+t) for all inputs nor over-reads inside ispec.decode."
         ),
-        rules=[(R_c05.r_pair, Q), (R_c05.r_tailchk, Q), (R_c11.r_rollback, Q), (R_spec.r_decode, Q), (R_spec.r_maxlen, Q), (R_spec.r_fmt, Q), (R_c11.r_globalw_decode, Q)],
+        rules=[(R_c05.r_pair, Q), (R_c05.r_tailchk, Q), (R_c11.r_rollback, Q), (R_spec.r_decode, Q), (R_spec.r_maxlen, Q), (R_spec.r_fmt, Q), (R_c11.r_globalw_decode, Q), (R_c05.r_overguard, Q)],
         level_text="partial: def-use pairing and dominance on the CFG of all 221 tail-taking functions (69 with direct reads, 65 bounded slices) of every ISA; the tests decode a handful of ModRM forms and never a truncated immediate",
         level_note="Trusted: tail variables are tracked by the enumerated rebinding idioms (pack(), open slices, tuple split, helper return); crysp Bits slicing semantics (short slices do not raise); a piece that is only inspected in tests is look-ahead (undecided, not alarmed).",
         technique="def-use pairing + dominator/must-pass-through queries on statement CFGs, table lint of cpu modules",
@@ -344,3 +344,27 @@ for _pid in sorted({p for ps in R_df.FILE_PROPS.values() for p in ps}):
             " (R-DEFAULTS) the default arguments of this property's core API still have the values recorded in ref/defaults.json."
         )
         PROPS[_pid]["trusted_base"] = list(PROPS[_pid]["trusted_base"]) + ["ref/defaults.json (inventory of the reviewed tree)"]
+
+# ---------------------------------------------------------------------------------------------------------------------------
+# generic maintenance-slip rules (rules/generic.py), scoped to each property's files
+from .rules import generic as R_gen
+
+_GEN = {
+    "R-MEMOKEY": (R_gen.r_memokey, ["C03", "C05", "C10", "C11", "C13", "C14", "C15", "C16", "C18"]),
+    "R-MUTDEFAULT": (R_gen.r_mutdefault, ["C10", "C11", "C13", "C16", "C17", "C18", "C20"]),
+    "R-GENARG": (R_gen.r_genarg, ["C12", "C13", "C19"]),
+    "R-SHAREMUT": (R_gen.r_sharemut, ["C08", "C10", "C13"]),
+    "R-TRUTHYBOUND": (R_gen.r_truthybound, ["C12", "C14", "C15", "C20"]),
+}
+for _name, (_mk, _pids) in _GEN.items():
+    for _pid in _pids:
+        if _pid in PROPS:
+            PROPS[_pid]["rules"].append((_mk(_pid), Q))
+for _pid in sorted({p for _, ps in _GEN.values() for p in ps}):
+    if _pid in PROPS:
+        PROPS[_pid]["explanation"] += (
+            " Generic maintenance-slip rules over this property's files: memo keyed by every parameter its value depends on "
+            "(R-MEMOKEY), no mutable default argument (R-MUTDEFAULT), no one-shot iterator passed where it is kept or re-iterated "
+            "(R-GENARG), no list/dict attribute handed over by reference to a derived object (R-SHAREMUT), no slice bound tested by "
+            "truthiness (R-TRUTHYBOUND) -- whichever apply."
+        )
